@@ -95,7 +95,11 @@ pub fn gen_url(t: &mut Tape) -> GenUrl {
                 .map(|_| {
                     const A: &[char] = &['a', 'k', 'v', '0', '9', '-', '_', '.', '%', '2', 'F'];
                     let k = t.string_of(&A[..8], 4);
-                    let v = t.string_of(&A[..8], 5);
+                    let mut v = t.string_of(&A[..8], 5);
+                    // percent-escapes inside an existing query value: kept byte for byte (never encoded again)
+                    if t.chance(1, 3) {
+                        v.push_str(*t.pick(&["%20", "%2F", "%3f", "%25", "%C3%A9", "a%20b%2Fc"]));
+                    }
                     format!("k{k}={v}")
                 })
                 .collect();
